@@ -159,16 +159,27 @@ def findData (ord : List Name → List Name) (s : St) (n : Name) (cbp mbf : Bool
 def setCap (s : St) (k : Nat) : St := { s with cap := k, hist := Ev.cap k :: s.hist }
 def advance (s : St) (d : Nat) : St := { s with now := s.now + d }
 
+/-- `fw/mgmt/cs.go` `ContentStoreModule.config` for well-formed ControlParameters: 409 when exactly
+    one of Flags / Mask is present, otherwise 200 and — when a Capacity (≤ MaxInt) is given, with or
+    without Flags+Mask — `table.SetCsCapacity`, the Capacity echoed in the response -/
+def csConfig (s : St) (cap : Option Nat) (hasFlags hasMask : Bool) : St × Nat × Option Nat :=
+  if hasFlags != hasMask then (s, 409, none)
+  else match cap with
+    | some k => (setCap s k, 200, some k)
+    | none => (s, 200, none)
+
 inductive Op where
   | ins (n : Name) (wire : Bytes) (fresh : Nat)
   | find (n : Name) (cbp mbf : Bool) (ord : List Name → List Name)
   | cap (k : Nat)
+  | mgmt (cap : Option Nat) (hasFlags hasMask : Bool)
   | adv (d : Nat)
 
 def step (s : St) : Op → St × Ans
   | .ins n w f => (insertData (fun _ => false) s n w f, none)
   | .find n c m ord => findData ord s n c m
   | .cap k => (setCap s k, none)
+  | .mgmt c hf hm => ((csConfig s c hf hm).1, none)
   | .adv d => (advance s d, none)
 
 def run (s : St) : List Op → St
